@@ -82,6 +82,39 @@ def _chunk(cases):
     return bad
 
 
+SEQ_REGEX = {"work": r"^work/(?P<stem>\w+)\.zo$", "home": r"^home/(?P<stem>\w+)\.zo$", "any": r"^(?:.*/)?(?P<stem>\w+)\.zo$"}
+SEQ_ZOT = {"work": ("w/log.zot", "# template w\n\n## Work log {{ stem }}\n## (rendered from w/log.zot)\n\n"),
+           "home": ("h/log.zot", "# template h\n\n## Home log {{ stem }}\n## (rendered from h/log.zot)\n\n"),
+           "any": ("any.zot", "# template any\n\n## Any page\n## (rendered from any.zot)\n\n")}
+SEQ_OLD = "# Old content\n\n- 240101#01 keep me\n"
+
+
+def _seq_chunk(cases):
+    """Several targets initialised by one `zorg edit` process (editor stubbed): MC_TemplateSeq."""
+    from unittest.mock import MagicMock, patch
+    zenv.set_day("2024-06-01")
+    bad = []
+    for c in cases:
+        env = zenv.ZEnv({"template_pattern_map": {SEQ_REGEX[p]: SEQ_ZOT[p][0] for p in c["map"]}})
+        try:
+            for name, text in SEQ_ZOT.values():
+                env.write(name, text)
+            for path, ex in c["existing"].items():
+                if ex:
+                    env.write(path, SEQ_OLD)
+            with patch("vimala._vim.proctor.safe_popen", lambda *a, **k: MagicMock()):
+                r = env.main("edit", *c["targets"])
+            got = {path: (env.read(path) if env.exists(path) else "") for path in c["after"]}
+            if r.exc is not None or r.rc != 0:
+                bad.append({"case": c, "what": f"zorg edit failed: {r!r} {r.err[-200:]}", "observed": got})
+            elif got != c["after"]:
+                path = sorted(p for p in got if got[p] != c["after"][p])[0]
+                bad.append({"case": c, "what": f"content of {path} after `zorg edit {' '.join(c['targets'])}`", "observed": got, "path": path})
+        finally:
+            env.cleanup()
+    return bad
+
+
 def _entry_points(ctx):
     """The same rule through the other entry points: action open of a link to a missing / existing page, note move to a
     missing / existing page, edit of a missing / existing page (editor stubbed)."""
@@ -156,6 +189,25 @@ def run(ctx):
         ctx.violation(f"{len(items)} template init case(s): {k[0]} (existing={k[1]}, overwrite={k[2]}, explicit={k[3]}); e.g. path {b['case']['path']} "
                       f"map {b['case']['map']}: expected {b['case']['once']!r}, observed {b['observed'][-1]}",
                       {"count": len(items), "example": b})
+    # several targets in one process
+    r2 = tlc.run_tlc("MC_TemplateSeq", cfg="MC_TemplateSeq.cfg")
+    if not r2.ok:
+        ctx.machinery(f"MC_TemplateSeq: {r2.violated} {r2.error}\n{r2.output[-1500:]}")
+    ctx.tlc_stats(r2, "MC_TemplateSeq: 2-3 targets per process, templates sharing base names (Independent, Untouched checked)")
+    seq = sorted((json.loads(json.loads(l)) for l in r2.output.splitlines() if l.startswith('"{')), key=lambda c: json.dumps(c, sort_keys=True))
+    if len(seq) < 2000:
+        ctx.machinery(f"MC_TemplateSeq emitted only {len(seq)} cases")
+    spool = seq if not ctx.quick else rng.sample(seq, 240)
+    sbad = [b for part in par.pmap(_seq_chunk, [spool[i:i + 10] for i in range(0, len(spool), 10)], chunk=1) for b in part]
+    sgroups = {}
+    for b in sbad:
+        sgroups.setdefault(b["what"].split(" after ")[0][:40], []).append(b)
+    for k, items in sorted(sgroups.items()):
+        b = items[0]
+        ctx.violation(f"{len(items)} multi-target case(s): {b['what']}: expected {b['case']['after'].get(b.get('path'))!r}, "
+                      f"observed {b['observed'].get(b.get('path'))!r} (pattern order {b['case']['map']})", {"count": len(items), "example": b})
+    ctx.add("evaluations", len(spool))
+    ctx.add("traces_validated_against_impl", len(spool))
     _entry_points(ctx)
     ctx.add("evaluations", len(pool))
     ctx.add("traces_validated_against_impl", len(pool))
